@@ -133,6 +133,8 @@ THREAD_OPS = {
     "append": lambda sig, n: sig.append(n),
     "getattr": lambda sig, n: getattr(sig, n),
     "event": lambda sig, n: Event(signal=n),
+    # reverse lookup of the last built-in signal (walks the whole registry) while another thread registers
+    "name_for_last_builtin": lambda sig, n: sig.name_for_signal(10),
 }
 
 
@@ -212,6 +214,9 @@ class Racing:
             for (st, kind, n, r) in res:
                 if st == "raised":
                     out.append(("C25/threads/exception/%s" % r.split(":")[0], "%s(%r) raised %s" % (kind, n, r)))
+                elif kind == "name_for_last_builtin":
+                    if r != "PUBLISH_META_SIGNAL":
+                        out.append(("C25/threads/answer", "name_for_signal(10) returned %r" % (r,)))
                 elif kind == "getattr" and r != final.get(n):
                     out.append(("C25/threads/answer", "getattr(%r) returned %r but the registry binds it to %r" % (n, r, final.get(n))))
                 elif kind == "event" and (r[0] != n or r[1] != final.get(n)):
@@ -231,6 +236,8 @@ def thread_params(tier):
         ps.append({"threads": [[(k1, "X")], [(k2, "X")]]})          # the same new name in two threads
         ps.append({"threads": [[(k1, "X")], [(k2, "Y")]]})          # two new names
     ps.append({"threads": [[("event", "X"), ("getattr", "Y")], [("getattr", "Y"), ("event", "X")]]})
+    for k in kinds:
+        ps.append({"threads": [[("name_for_last_builtin", "X")], [(k, "X"), (k, "Y")]]})
     if tier != "quick":
         ps.append({"threads": [[("append", "X")], [("event", "Y")], [("getattr", "Z")]]})
         ps.append({"threads": [[("event", "X"), ("event", "Y")], [("event", "Y"), ("event", "X")]]})
